@@ -220,10 +220,17 @@ fn history(family: &str, seed: u64, idx: usize, thorough: bool, out: &mut impl W
         _ => 3,
     } as u32;
     let v6 = rng.chance(1, 5);
-    let mut c = Ctx { s: Session::new(v6, PeerCfg::default()), rng, next_h: 0, live: vec![], nclients };
+    let cfg_for = |family: &str| -> PeerCfg {
+        let mut cfg = PeerCfg::default();
+        if family == "skin" {
+            cfg.registered.push(Ty::Skinned);
+        }
+        cfg
+    };
+    let mut c = Ctx { s: Session::new(v6, cfg_for(family)), rng, next_h: 0, live: vec![], nclients };
     for _ in 0..nclients {
         let shift = c.rng.below(4);
-        c.s.add_client(PeerCfg::default(), shift);
+        c.s.add_client(cfg_for(family), shift);
     }
     writeln!(out, "{}", json!({"ev":"history","family":family,"id":format!("{}-{}-{}", family, seed, idx),"clients":nclients,"v6":v6})).unwrap();
 
@@ -360,6 +367,47 @@ fn history(family: &str, seed: u64, idx: usize, thorough: bool, out: &mut impl W
                 if !d.0 {
                     break;
                 }
+            }
+        }
+        "skin" => {
+            // joints: synchronized entities from random origins; peers' local ids are shifted differently
+            let nj = c.rng.range(0, 5);
+            let mut joints = vec![];
+            for _ in 0..nj {
+                let p = c.any_peer();
+                let h = c.fresh();
+                c.s.spawn(p, h, true, &[], None);
+                joints.push(h);
+                c.live.push(h);
+            }
+            let origin = c.any_peer();
+            let m = c.fresh();
+            c.s.spawn(origin, m, true, &[], None);
+            let d = c.drain(40);
+            c.s.trace.push(json!({"ev":"drain","quiescent":d.0,"rounds":d.1}));
+            let updates = c.rng.range(1, 3);
+            for k in 0..updates {
+                // arbitrary order, repeats allowed
+                let len = if joints.is_empty() { 0 } else { c.rng.below(6) };
+                let list: Vec<u32> = (0..len).map(|_| *c.rng.pick(&joints)).collect();
+                let writer = if k == 0 || c.rng.chance(2, 3) { origin } else { c.any_peer() };
+                let v = CVal::new(Ty::Skinned, (k as i64 + 1) * 100);
+                c.s.trace.push(json!({"ev":"phase","writer":writer,"h":m,"ty":"Skinned","joints":list}));
+                c.s.write(writer, m, &v, &list);
+                let d = c.drain(40);
+                c.s.trace.push(json!({"ev":"drain","quiescent":d.0,"rounds":d.1}));
+                if !d.0 {
+                    break;
+                }
+            }
+            // a client that joins afterwards gets the SkinnedMesh through the snapshot
+            if c.rng.chance(1, 2) {
+                let shift = c.rng.below(5);
+                let id = c.s.add_client(cfg_for(family), shift);
+                c.nclients += 1;
+                c.s.connect(id);
+                let ok = c.wait_connected(id, 60);
+                c.s.trace.push(json!({"ev":"late_join","peer":id,"ok":ok}));
             }
         }
         _ => panic!("unknown family {}", family),
